@@ -65,7 +65,7 @@ var solvers = []solverSpec{
 	}},
 }
 
-func runOne(sp solverSpec, script string, to time.Duration, seed int, tag string) SolverResult {
+func runOneCtx(ctx context.Context, sp solverSpec, script string, to time.Duration, seed int, tag string) SolverResult {
 	if sp.fix != nil {
 		script = sp.fix(script)
 	}
@@ -74,10 +74,10 @@ func runOne(sp solverSpec, script string, to time.Duration, seed int, tag string
 		return SolverResult{Status: "error", Solver: sp.name, Output: err.Error()}
 	}
 	defer os.Remove(f)
-	ctx, cancel := context.WithTimeout(context.Background(), to+2*time.Second)
+	cctx, cancel := context.WithTimeout(ctx, to+2*time.Second)
 	defer cancel()
 	argv := sp.argv(f, to, seed)
-	cmd := exec.CommandContext(ctx, argv[0], argv[1:]...)
+	cmd := exec.CommandContext(cctx, argv[0], argv[1:]...)
 	var out bytes.Buffer
 	cmd.Stdout = &out
 	cmd.Stderr = &out
@@ -92,9 +92,11 @@ func runOne(sp solverSpec, script string, to time.Duration, seed int, tag string
 		st = "unsat"
 	case first == "sat":
 		st = "sat"
+	case ctx.Err() != nil:
+		st = "cancelled"
 	case first == "unknown":
 		st = "unknown"
-	case first == "timeout" || strings.Contains(o, "timeout") || ctx.Err() != nil:
+	case first == "timeout" || strings.Contains(o, "timeout") || cctx.Err() != nil:
 		st = "timeout"
 	case strings.Contains(o, "interrupted"):
 		st = "timeout"
@@ -102,70 +104,76 @@ func runOne(sp solverSpec, script string, to time.Duration, seed int, tag string
 	return SolverResult{Status: st, Solver: sp.name, Secs: secs, Output: o}
 }
 
-// Solve runs the portfolio.  First the fast solver with a short slice of the budget;
-// when undecided, the others are raced with the full budget.
-// needTwo: require two agreeing solvers for unsat (thorough tier).
+func runOne(sp solverSpec, script string, to time.Duration, seed int, tag string) SolverResult {
+	return runOneCtx(context.Background(), sp, script, to, seed, tag)
+}
+
+// Solve runs the portfolio: z3-new starts at once; if it has not answered after a short head start the
+// other two solvers are started as well; the first decisive answer (sat/unsat) wins and the rest are cancelled.
+// needTwo (thorough tier): an unsat must be confirmed by a second solver where one can decide it in time.
 func Solve(script string, to time.Duration, seed int, tag string, needTwo bool) SolverResult {
+	ctx, cancel := context.WithCancel(context.Background())
+	defer cancel()
+	ch := make(chan SolverResult, len(solvers))
+	launch := func(i int) {
+		go func() { ch <- runOneCtx(ctx, solvers[i], script, to, seed, tag) }()
+	}
+	launch(0)
+	started := 1
+	head := time.NewTimer(700 * time.Millisecond)
+	defer head.Stop()
 	var tried []string
 	total := 0.0
-	short := to / 4
-	if short < 2*time.Second {
-		short = 2 * time.Second
-	}
-	r := runOne(solvers[0], script, short, seed, tag)
-	tried = append(tried, fmt.Sprintf("%s:%s:%.2fs", r.Solver, r.Status, r.Secs))
-	total += r.Secs
-	if (r.Status == "unsat" && !needTwo) || r.Status == "sat" {
-		r.Tried = tried
-		return r
-	}
-	firstUnsat := r.Status == "unsat"
-	// race the rest (and z3-new again with full budget if it timed out)
-	type item struct{ r SolverResult }
-	ch := make(chan SolverResult, 3)
-	n := 0
-	for i, sp := range solvers {
-		if i == 0 && (firstUnsat || r.Status == "unknown" || r.Status == "error") {
-			continue
-		}
-		n++
-		go func(sp solverSpec) { ch <- runOne(sp, script, to, seed, tag) }(sp)
-	}
 	var best SolverResult
-	best = r
-	for i := 0; i < n; i++ {
-		x := <-ch
-		tried = append(tried, fmt.Sprintf("%s:%s:%.2fs", x.Solver, x.Status, x.Secs))
-		total += x.Secs
-		if x.Status == "sat" {
-			best = x
-			break
-		}
-		if x.Status == "unsat" {
-			if !needTwo || firstUnsat || best.Status == "unsat" {
-				best = x
-				break
+	unsats := 0
+	got := 0
+	for got < started {
+		select {
+		case <-head.C:
+			if started == 1 {
+				launch(1)
+				launch(2)
+				started = 3
 			}
-			best = x
-			continue
-		}
-		if best.Status != "unsat" && (best.Status == "error" || best.Status == "") {
-			best = x
+		case r := <-ch:
+			got++
+			if r.Status != "cancelled" {
+				tried = append(tried, fmt.Sprintf("%s:%s:%.2fs", r.Solver, r.Status, r.Secs))
+				total += r.Secs
+			}
+			switch r.Status {
+			case "sat":
+				r.Tried, r.Secs = tried, total
+				return r
+			case "unsat":
+				unsats++
+				if best.Status != "unsat" {
+					best = r
+				}
+				if !needTwo || unsats >= 2 {
+					best.Tried, best.Secs = tried, total
+					return best
+				}
+				if started == 1 {
+					launch(1)
+					launch(2)
+					started = 3
+				}
+			default:
+				if best.Status == "" || best.Status == "error" || best.Status == "cancelled" {
+					best = r
+				}
+				if started == 1 {
+					launch(1)
+					launch(2)
+					started = 3
+				}
+			}
 		}
 	}
-	if needTwo && best.Status == "unsat" {
-		cnt := 0
-		for _, t := range tried {
-			if strings.Contains(t, ":unsat:") {
-				cnt++
-			}
-		}
-		if cnt < 2 {
-			best.Status = "unsat" // single solver; recorded in Tried; still accepted but flagged
-			best.Solver += "(single)"
-		}
+	if best.Status == "unsat" && needTwo && unsats < 2 {
+		best.Solver += "(single)"
 	}
-	best.Tried = tried
-	best.Secs = total
+	best.Tried, best.Secs = tried, total
 	return best
 }
